@@ -908,6 +908,10 @@ CATALOGUE: List[Tuple[Optional[str], str]] = [
     # the claimed *module* is not a loaded module but "<loaded module>.<attribute path>": nothing to resolve there
     ("trapmod.Holder", "Err"), ("trapmod.Holder", "fn"), ("builtins.KeyError", "__base__"), ("taskiq.serialization.sys", "exit"),
     ("trapmod.settings", "fn"), ("trapmod.Holder.Inner", "__init__"), ("mon.excser.Outer", "Inner"),
+    # names that are not ASCII: compatibility forms of existing names (fullwidth letters, ligatures) and others - nothing
+    # goes by such a name, whatever it normalises to
+    ("os", "\uff53ystem"), ("builtins", "\uff36alueError"), ("trapmod", "\uff46n"), ("builtins", "Value\ufb01Error"),
+    ("trapmod", "Cls\u00e9"), ("builtins", "\u212aeyError"), ("trapmod", "Holder.\uff26n"),
 ]
 
 class _Validating(Exception):
